@@ -25,7 +25,7 @@ META = dict(
           "writes performed inside gix (Git object files, refs) are not instrumented; quick tier samples kill points of "
           "content-addressed store objects and takes every ordering-relevant point."),
     design="4 C15")
-READY = True
+READY = False  # being validated
 LEVEL = META["category"]
 
 FILES = ["f1.txt", "f2.txt", "d/f3.txt", "d/f4.txt", "d/e/f5.txt", "f6.txt"]
@@ -221,7 +221,10 @@ def run_scenario(ctx, lab, name, prep, cmd, rng, max_kills):
     # traced, uninterrupted run
     full = lab.copy(pristine)
     tr = os.path.join(full, "trace.txt")
-    rc, out, err = sh_run([lab.jj] + cmd, os.path.join(full, "ws"), lab.environ({"JJ_VERIF_TRACE": tr}))
+    # one environment (timestamps, randomness seed) for the traced run and every kill run, so
+    # that the operation ids written by the command are the same in all of them
+    cmd_env = lab.environ()
+    rc, out, err = sh_run([lab.jj] + cmd, os.path.join(full, "ws"), {**cmd_env, "JJ_VERIF_TRACE": tr})
     if rc != 0:
         raise vf.ToolError("scenario %s: command failed uninterrupted: %s" % (name, err[-1500:]))
     points = []
@@ -239,7 +242,7 @@ def run_scenario(ctx, lab, name, prep, cmd, rng, max_kills):
 
     def kill_at(i):
         root = lab.copy(pristine)
-        rc, out, err = sh_run([lab.jj] + cmd, os.path.join(root, "ws"), lab.environ({"JJ_VERIF_CRASH_AT": str(i + 1)}))
+        rc, out, err = sh_run([lab.jj] + cmd, os.path.join(root, "ws"), {**cmd_env, "JJ_VERIF_CRASH_AT": str(i + 1)})
         obs = observe(lab, root, pre_files)
         obs["killed"] = rc not in (0, 1, 2)
         shutil.rmtree(root, ignore_errors=True)
